@@ -289,9 +289,18 @@ fn gen_tagged_enum(rng: &mut Rng, cx: &mut Ctx) -> Value {
             }
         }
         1 => {
-            // internally tagged
-            for v in &vnames {
+            // internally tagged; sometimes with a second constant property, so
+            // that two properties qualify as the tag
+            let second_constant = rng.chance(1, 3);
+            for (vi, v) in vnames.iter().enumerate() {
                 let mut o = gen_object(rng, cx, 2, 0, 2);
+                if second_constant {
+                    o["properties"]["kind"] = json!({"type": "string", "enum": [format!("k{vi}")]});
+                    let mut req: Vec<Value> = o.get("required").and_then(|x| x.as_array()).cloned().unwrap_or_default();
+                    req.retain(|r| r != &json!("kind"));
+                    req.push(json!("kind"));
+                    o["required"] = Value::Array(req);
+                }
                 o["properties"]["type"] = json!({"type": "string", "enum": [v]});
                 let mut req: Vec<Value> = o
                     .get("required")
@@ -1119,9 +1128,22 @@ pub fn generate(seed: u64, focus: Focus, faults: bool) -> RunDesc {
         if !candidates.is_empty() {
             let i = *fault_rng.pick(&candidates);
             let kind = *fault_rng.pick(POISONS);
-            // a poisoned op must not be the target of a ReAdd issued before the
-            // fault is understood; ReAdd of it later is fine (re-delivery of a failed call)
+            let clean_copy = ops[i].clone();
             poison_op(&mut fault_rng, &mut ops[i], kind);
+            // the client's retry: the same call without the offending part,
+            // somewhere later in the history (often right away)
+            if fault_rng.chance(2, 3) && !matches!(clean_copy, Op::AddType { .. }) {
+                let at = if fault_rng.chance(1, 2) { i + 1 } else { fault_rng.range(i + 1, ops.len()) };
+                // indices of later ReAdd ops shift by one
+                for op in ops.iter_mut() {
+                    if let Op::ReAdd { of } = op {
+                        if *of >= at {
+                            *of += 1;
+                        }
+                    }
+                }
+                ops.insert(at, clean_copy);
+            }
         }
     }
 
